@@ -112,6 +112,9 @@ inductive ConnOutcome
   | ok (proxy : Bool)
   | socketFail          -- `_SocketFail` from `_connect`
   | otherFail           -- any other exception
+  /-- `_connect` returned a socket, but `self._selector_cls(sock)` (the first statement after the
+      `Connected` event inside `run()`'s `try`) raises an ordinary exception, e.g. OSError EMFILE -/
+  | selFail (proxy : Bool)
   deriving Repr, DecidableEq, Inhabited
 
 /-- application: the whole event history so far (newest first) ↦ calls it makes now -/
@@ -862,6 +865,30 @@ def afterConnect (proxy : Bool) : M Unit := do
     modS fun s => { s with selOpen := true }
     runLoop
 
+/-- `run()`'s `try` statement when `selector = self._selector_cls(sock)` raises: the loop is never
+    entered; the exception is an ordinary `Exception` raised inside the `try`, so the
+    `except Exception` clause runs (`onLoopEnd (some (.other "error"))`: close the socket, yield
+    `Disconnected('error; …')`), then `finally` — where `selector is None`, i.e. `selClose` finds no
+    selector to close.  Abandonment at that `Disconnected` passes through `runFinally` like any other.
+    (The pinned commit created the selector *outside* the `try`, where the exception escaped the
+    iterator; the `cleanup` flag does not reproduce that: this case follows the repaired code.) -/
+def runLoopNoSel : M Unit :=
+  tryC (do onLoopEnd (some (.other "error")); selClose) runFinally
+
+/-- `run()` once `_connect()` has returned a socket for which no selector can be constructed:
+    identical to `afterConnect` up to and including the `Connected` event -/
+def afterConnectNoSel (proxy : Bool) : M Unit := do
+  modS fun s => { s with sockOpen := true }
+  let s ← getS
+  let r ← write s.cfg.request
+  if wsError r then do
+    closeSocket
+    yieldEv (.connectFail "request-failed")
+  else do
+    yieldConnected proxy
+    modS fun s => { s with selOpen := false }      -- `selector` is still `None`
+    runLoopNoSel
+
 def run : M Unit := do
   yieldEv .connecting
   let s ← getS
@@ -869,6 +896,7 @@ def run : M Unit := do
   | .socketFail => yieldEv (.connectFail "connect-failed")
   | .otherFail => yieldEv (.connectFail "connect-failed")
   | .ok proxy => afterConnect proxy
+  | .selFail proxy => afterConnectNoSel proxy
 
 /-- run a whole connection; the result is the final system state (trace newest first) -/
 def runAll (cfg : Cfg) (react : React) (env : List EnvStep) : Sys :=
